@@ -88,7 +88,7 @@ void harness(void)
     r = call("%p", ptr);
     __CPROVER_assert(g_ev == 1 && g_nlit == 0 && g_e_kind == C06_EV_INT, "%p: exactly one integer conversion, no other output");
     __CPROVER_assert(g_e_u == (ullong)(size_t)ptr && g_e_signed == 0 && g_e_base == 16, "%p: the pointer value, unsigned, base 16");
-    __CPROVER_assert(g_e_prec == g_c06_p_minlen && (g_e_ops & (C06_OPS_SPEC | C06_OPS_ZERO)) == (C06_OPS_SPEC | C06_OPS_ZERO) && !(g_e_ops & C06_OPS_UPPER),
+    __CPROVER_assert(g_e_prec == g_c06_p_minlen && (g_e_ops & g_c06_p_set) == g_c06_p_set && (g_e_ops & g_c06_p_clr) == 0 && !(g_e_ops & C06_OPS_UPPER),
                      "%p: the fixed form 0x + 2*sizeof(void*) lower-case digits");
     __CPROVER_assert(g_e_width == 0 && !(g_e_ops & C06_OPS_LEFT), "%p: no width");
     __CPROVER_assert(g_e_h == c06_event_recorder && g_e_d == (void *)&g_cbdata && r == g_sum, "%p: callback passed on, count returned");
